@@ -961,7 +961,8 @@ impl<'a> CompilerState<'a> {
         let p = pairs.next().unwrap();
         match p.as_rule() {
             Rule::primary_var_type => {
-                let s = p.as_str();
+                // The blanks inside a type name are free-form (short  int, a tab, a line break)
+                let s = p.as_str().split_whitespace().collect::<Vec<&str>>().join(" ");
                 if s.contains("*") {
                     Ok(2)
                 } else if s == "char" {
